@@ -28,8 +28,10 @@ def replay_generic(pid, rp):
         return 1
     fn = globals().get("rerun_" + pid)
     if fn is None:
-        print(json.dumps(fails[0], indent=1, default=str)[:3000])
-        return 1
+        # no case-level re-execution for this property: re-run the whole (seeded, deterministic) check that found it
+        print(f"re-running check {pid} with the recorded seed {rp.get('seed')} and tier {rp.get('tier')} …")
+        print(json.dumps(fails[0], indent=1, default=str)[:2000])
+        return globals()["check_" + pid](rp.get("tier", "quick"), int(rp.get("seed", 0)))
     bad = 0
     for f in fails:
         r = fn(f)
